@@ -59,7 +59,7 @@ OPS = {
     "khasheq": ("KHashEq", "s"), "kcmp": ("KCmp", "nn"), "kserde": ("KSerde", "n"),
     "kderef": ("KDeref", ""), "kasref": ("KAsRef", ""), "ktoseq": ("KToSeq", ""),
     "krev": ("KRev", ""), "ktorev": ("KToRev", ""), "keqseq": ("KEqSeq", "n"),
-    "keqstr": ("KEqStr", "l"), "kusize": ("KUsize", ""), "kcomp": ("KComp", ""),
+    "keqstr": ("KEqStr", "l"), "kusize": ("KUsize", ""), "kview": ("KView", "n"), "kcomp": ("KComp", ""),
     "ktocomp": ("KToComp", ""), "krevcomp": ("KRevComp", ""), "ktorevcomp": ("KToRevComp", ""),
 }
 
